@@ -239,4 +239,61 @@ func runC26(p *core.Prog, r *core.Report) {
 	// ---------------- R6 what the policer takes for confirmation really is one
 	r6 := r.Rule("C26.R6", "the replicator reports a node as holding the copy only after the send to that node (or the local put) returned nil (shared with C27.R1)", 2)
 	replicatorReportsOnlyAcceptedCopies(p, r, r6)
+	// ---------------- R7 the protection against trusted-only holders is not behind the replication branches
+	r7 := r.Rule("C26.R7", "processNodes: a 'keep the local copy' decision that depends on copies counted on trust (maintenance nodes) is reachable after each of the rule's replication attempts: a started replication may fail, so it must not switch the protection off for a node the rule lists", 2)
+	if pn := p.Func("(*pkg/services/policer.Policer).processNodes"); pn == nil {
+		r.Fatalf("C26.R7: processNodes not found")
+	} else {
+		var keeps []*ssa.Store
+		for _, b := range pn.Blocks {
+			for _, in := range b.Instrs {
+				st, ok := in.(*ssa.Store)
+				if !ok {
+					continue
+				}
+				fa, isFA := st.Addr.(*ssa.FieldAddr)
+				c, isC := st.Val.(*ssa.Const)
+				if !isFA || !isC || !strings.HasSuffix(core.FieldAddrName(fa), ".needLocalCopy") {
+					continue
+				}
+				if bv, isB := constBool(c); !isB || !bv {
+					continue
+				}
+				// guarded by the count of trusted copies: some dominating test reads that cell
+				trusted := false
+				for _, blk := range pn.Blocks {
+					ifi, isIf := blk.Instrs[len(blk.Instrs)-1].(*ssa.If)
+					if !isIf || !(blk.Succs[0].Dominates(b) || blk.Succs[0] == b) {
+						continue
+					}
+					walkOperands(ifi.Cond, 3, func(v ssa.Value) {
+						if u, isU := v.(*ssa.UnOp); isU {
+							if al, isA := u.X.(*ssa.Alloc); isA && al.Comment == "uncheckedCopies" {
+								trusted = true
+							}
+						}
+					})
+				}
+				if trusted {
+					keeps = append(keeps, st)
+				}
+			}
+		}
+		reps := core.CallSites([]*ssa.Function{pn}, func(s core.Site) bool { return s.Name == "(*pkg/services/policer.Policer).tryToReplicate" })
+		if len(reps) == 0 || len(keeps) == 0 {
+			r7.Bad(core.FuncName(pn)+"#trusted-copies-protection", p.Pos(pn.Pos()), fmt.Sprintf("expected replication attempts and a protection depending on the trusted copies, found %d and %d", len(reps), len(keeps)))
+		}
+		for i, rp := range reps {
+			rb := rp.Call.(ssa.Instruction).Block()
+			ok := false
+			for _, st := range keeps {
+				if reaches(rb, st.Block()) {
+					ok = true
+				}
+			}
+			r7.Check(ok, fmt.Sprintf("%s#after-replication@%d", core.FuncName(pn), i+1), p.InstrPos(rp.Call), "the trusted-copies protection is still evaluated after this attempt",
+				"after this replication attempt the 'keep the local copy because some holders were only taken on trust' decision is never reached: if the attempt fails, a container node removes its copy although the only other 'holders' are maintenance nodes nobody has heard from")
+		}
+	}
+	r.Explain += " (R7) in processNodes a store needLocalCopy=true guarded by the number of copies counted on trust is reachable from each tryToReplicate call of the function, i.e. the protection is not an alternative to the shortage / misplacement branches."
 }
